@@ -35,16 +35,17 @@ static const char *const probe_names[] = {"task_ran_on_gpu", "task_ran_on_cpu", 
  * while the tasks that would release the readers wait) shows up in 5-7% of the rnd runs of this harness, also with
  * CPU-only plans (knob force_sel=0), i.e. it is not an accelerator matter: see sim/dev/NOTES.md */
 static const char *const SCHEDS[] = {"lfq", "ap", "gd", "lhq", "ltq", "pbq", "spq", "rnd"};
-#define NSCHED 7          /* rnd only on request (sched=7 with knob allow_rnd=1) */
+#define NSCHED 6          /* spq / rnd only on request (knobs allow_spq=1 sched=6, allow_rnd=1 sched=7) */
 
-/* In the serialised modes 3/4 every accelerator task is followed by a writer that polls (AGAIN) until it is done; under spq
- * (one global priority list, one lock, re-queued tasks sorted in again) that polling makes the slowest 0.1 % of the runs crawl
- * for 70-80 M scheduling points (all of the slowest 6 of 6376 mode-4 runs were spq): spq is not used there. */
+/* spq is not used either (full space included: seed 3000839, mode 0, the device manager completing a task waits for ever for
+ * the list lock that the polling thread keeps taking): writers that poll (AGAIN) for outstanding readers are re-queued at the lowest priority
+ * into its single sorted list, where a re-queued task that has become data-ready sits behind the other pollers for ever once
+ * there are as many pollers as threads (seed 1004362: mode 2, 3 threads, accelerator idle, task 10 data-ready and never selected;
+ * same retry livelock as KF-DTD-AGAIN-LIVELOCK, recorded there for ip/llp/ll), and in the serialised modes 3/4 the polling alone
+ * made the slowest runs crawl for 70-80 M scheduling points (the 6 slowest of 6376 mode-4 runs were all spq). */
 static const char *sched_of(const hx_plan_t *p)
 {
-    long i = hx_knob(p, "sched", 0) % (hx_knob(p, "allow_rnd", 0) ? 8 : NSCHED);
-    if (hx_knob(p, "mode", 0) >= 3 && i == 6) i = 5;
-    return SCHEDS[i];
+    return SCHEDS[hx_knob(p, "sched", 0) % (hx_knob(p, "allow_rnd", 0) ? 8 : hx_knob(p, "allow_spq", 0) ? 7 : NSCHED)];
 }
 
 static dev_shared_t SH;
@@ -337,6 +338,7 @@ static void plan_to_shared(const hx_plan_t *p)
     if (hx_knob(p, "mode", 0) == 2 || hx_knob(p, "mode", 0) == 3) SH.ndev = 1;
     /* modes 3/4 run one accelerator task at a time: more than 4 threads only add polling (AGAIN retries, idle selects) */
     if (hx_knob(p, "mode", 0) >= 3 && SH.nthreads > 4) SH.nthreads = 2 + SH.nthreads % 3;
+    if (hx_knob(p, "mode", 0) >= 3 && SH.nthreads < 2) SH.nthreads = 2;     /* more threads than polling writers (at most one) */
     int peer = (int)hx_knob(p, "peer", 1);
     int always_pushout = (int)hx_knob(p, "always_pushout", 0) || (SH.ndev > 1 && !peer);
     if (hx_knob(p, "mode", 0) == 3) always_pushout = 0;     /* the resident tile stays dirty on the device until its last writer */
@@ -425,6 +427,42 @@ static void plan_to_shared(const hx_plan_t *p)
             out[m] = d; out[m].id = m; m++;
         }
         memcpy(SH.tasks, out, sizeof(out[0]) * (size_t)m);
+        n = m;
+    }
+    if (mode >= 3) {
+        /* modes 3/4: the accelerator tasks run one after the other, so a CPU writer of a tile that an accelerator task reads
+         * would poll (AGAIN) until that -- possibly far away -- reader is done; with several such writers and 2-4 threads that
+         * is the KF-DTD-AGAIN-LIVELOCK situation (seed 1004420: lfq, 2 threads, ready task never selected).  Once an
+         * accelerator task has read a tile, later CPU tasks only read it.  (The token of mode 4 keeps its one polling writer.) */
+        int gpu_read[DEV_MAX_TILES] = {0};
+        for (int i = 0; i < n; i++) {
+            dev_task_desc_t *d = &SH.tasks[i];
+            for (int k = 0; k < d->nparams; k++) {
+                int t = d->tile[k];
+                if (d->sel != SEL_CPU) { if (t > (mode == 3 ? 1 : 0)) gpu_read[t] = 1; }
+                else if (gpu_read[t] && t > 0) d->mode[k] = M_IN;
+            }
+            if (d->nparams == 3) {
+                int ok = 0;
+                for (int z = 0; z < 6; z++) if (SIG3[z][0] == d->mode[0] && SIG3[z][1] == d->mode[1] && SIG3[z][2] == d->mode[2]) ok = 1;
+                if (!ok) d->nparams = 2;
+            }
+        }
+    }
+    if (hx_knob(p, "init_writers", 1)) {
+        /* every tile is first written by a CPU task: a reader of the INITIAL version of a tile hangs below a fake parent task
+         * that completes during the insertion, which is the one completion the gate cannot hold back (KF-DTD-WAR-RACE with a
+         * parentless reader: seeds 1000608, 1004449 -- the writer inserted after such a reader ran before it) */
+        static dev_task_desc_t out2[DEV_MAX_TASKS];
+        int m = 0;
+        for (int k = 0; k < SH.ntiles && m < DEV_MAX_TASKS - 2; k++) {
+            dev_task_desc_t *c = &out2[m];
+            memset(c, 0, sizeof(*c));
+            c->id = m; c->nparams = 1; c->tile[0] = k; c->mode[0] = M_OUT; c->sel = SEL_CPU;
+            m++;
+        }
+        for (int i = 0; i < n && m < DEV_MAX_TASKS - 2; i++) { out2[m] = SH.tasks[i]; out2[m].id = m; m++; }
+        memcpy(SH.tasks, out2, sizeof(out2[0]) * (size_t)m);
         n = m;
     }
     /* PARSEC_PUSHOUT: the discipline of tests/dsl/dtd/dtd_test_new_tile.c and dtd_test_simple_gemm.c.  The value
